@@ -42,9 +42,14 @@ def targets(op):
 
 
 # --------------------------------------------------------------------------------------------------
+def runaway(obs):
+    return [(i, 'the implementation ran away: thousands of events in one operation (runaway re-execution)')
+            for i, o in enumerate(obs) if o['out'] == 'Runaway']
+
+
 def c01(case, obs):
     """on time and never early"""
-    bad = []
+    bad = runaway(obs)
     alloc = _alloc_indices(case, obs)
     for i, (op, o) in enumerate(zip(case['ops'], obs)):
         for e in execs(o):
@@ -70,7 +75,7 @@ def c01(case, obs):
 
 def c02(case, obs):
     """no unauthorised, no duplicate execution; no interference; failed creations never run"""
-    bad = []
+    bad = runaway(obs)
     alloc = _alloc_indices(case, obs)
     failed_jobs = set()
     prev_enabled = case['enabled']
@@ -290,7 +295,7 @@ def c08(case, obs):
 
 def c09(case, obs):
     """chronological order inside one wake-up; paused jobs never delay due ones"""
-    bad = []
+    bad = runaway(obs)
     for i, (op, o) in enumerate(zip(case['ops'], obs)):
         ex = execs(o)
         anns = [e[3] for e in ex]
@@ -319,7 +324,7 @@ def strip_failures(obs):
 
 def c10(case, obs, raised, obs_nofail=None):
     """failures in user code stay isolated"""
-    bad = []
+    bad = runaway(obs)
     handled = [e[1] for o in obs for e in o['evs'] if e[0] == 'handler']
     hs = sorted(map(str, handled))
     rs = sorted(map(str, raised + [['prod', e[1][1]] for o in obs for e in o['evs']
